@@ -27,6 +27,7 @@ import (
 
 type seedCorpus struct {
 	by      map[string][][]byte // grammar -> seeds
+	plain   map[string][][]byte // text grammars before any re-encoded seed was added
 	all     [][]byte            // union, deduplicated, in a fixed order
 	nVector int
 	nCorpus int
@@ -353,6 +354,23 @@ func loadSeeds() *seedCorpus {
 
 		for _, s := range []string{"yubikey", "se", "a", "A+b.c_d-e9", "", "bad/name", "../x", "age-plugin-x", "x y", "1", "é", strings.Repeat("n", 300)} {
 			add("name", []byte(s))
+		}
+
+		// text seeds as they are, then a few key files as foreign tools write them
+		c.plain = map[string][][]byte{}
+		for g, l := range c.by {
+			if isTextGrammar(g) {
+				c.plain[g] = append([][]byte(nil), l...)
+			}
+		}
+		for _, b := range c.plain["keyfile"] {
+			if len(b) == 0 {
+				continue
+			}
+			add("keyfile", encVariant(b, 0))                             // UTF-8 BOM
+			add("keyfile", encVariant(b, nBOMVariants+encUTF16LE))       // UTF-16LE with BOM
+			add("keyfile", encVariant(crlf(b), nBOMVariants+encUTF16BE)) // UTF-16BE with BOM, CRLF
+			add("keyfile", encVariant(b, nCutVariants+6))                // UTF-16 BOM on UTF-8 text
 		}
 
 		// union, in a fixed order
